@@ -639,6 +639,7 @@ def main(argv):
             "(R-NULL) allocator results are null-tested and failure reaches handle_alloc_error. Not decided: allocator failure as an event; the "
             "state a panicking callback leaves in its own data."
             ' Added later: R-PAYLOAD-DUP (user code unwinding while a value exists both in its block and as a bitwise copy), R-LAYOUT as a premise (the block really has room for the reported number of items, on every target width analysed; configuration arm32 included).'
+            ' R-PAYLOAD-GAP.'
         ),
         rule_text="instances = (rule, API body or site); R-UNW instances are API bodies having at least one unwinding path",
         trusted_base=["rustc nightly MIR construction, drop elaboration (cleanup edges) and trait resolution", "std model table analysis/model.py (which std calls may unwind)", "panic while unwinding aborts"],
